@@ -102,7 +102,8 @@ fn check_fit(case: &FitCase, ctx: &mut Ctx) -> Result<(), Fail> {
     let q = DenseMatrix::from_2d_vec(&all_q);
     verif_hooks::set_schedule_seed(Some(case.seed));
     let r = catch(|| {
-        let m = KMeans::fit(&x, KMeansParameters::default().with_k(k).with_max_iter(case.max_iter)).map_err(|e| format!("fit: {}", e))?;
+        let params = if n % 2 == 0 { KMeansParameters::default().with_k(k).with_max_iter(case.max_iter) } else { KMeansParameters::default().with_max_iter(case.max_iter).with_k(k) };
+        let m = KMeans::fit(&x, params).map_err(|e| format!("fit: {}", e))?;
         let v = serde_json::to_value(&m).map_err(|e| format!("serialise: {}", e))?;
         let p: Vec<f64> = m.predict(&q).map_err(|e| format!("predict: {}", e))?;
         Ok::<_, String>((v, p))
